@@ -253,6 +253,31 @@ def run(ctx):
                                       probes_[i][1], base[i][:200], got[:200], replay={"kind": "fresh", "ver": probes_[i][0], "s": probes_[i][1]})
     finally:
         sys.setswitchinterval(old)
+    # (c') cold start: fresh processes whose FIRST use of the package happens from several threads at once (lazily built
+    # module-level tables), and the SAME string constructed repeatedly
+    from .. import conc
+    cold_ops = [["C", v, s] for v, s in probes_[:: max(1, len(probes_) // 150)] if core.sendable(s)]
+    conc.cold_start(ctx, cold_ops, "any", runs=ctx.n(4, 16), nthreads=8)
+    for v, s in probes_[:: max(1, len(probes_) // ctx.n(300, 3000))]:
+        outs = [probe_out(v, s) for _ in range(3)]
+        ctx.count(3)
+        if len(set(outs)) != 1:
+            ctx.violation("result-changes-on-repeated-construction", "constructing the identical string again gives another result", s, outs[0][:200], outs[-1][:200],
+                          replay={"kind": "fresh", "ver": v, "s": s})
+    # (b') process-global state BEFORE the package is imported vs after it was used (import-time side effects are invisible
+    # to the in-process snapshot): decimal.DefaultContext / Basic / Extended, a fresh thread's context and arithmetic,
+    # sys.path, warning filters, locale, logging, environment, signal handlers, stdio, hooks
+    g_ops = [["C", v, s] for v, s in probes_[:40]] + [["X", "x AV:N/AC:L/Au:N/C:P/I:P/A:P y"], ["R", "3", "9.8/CVSS:3.1/AV:N/AC:L/PR:N/UI:N/S:U/C:H/I:H/A:H"],
+                                                      ["L", ["-j", "-v", "CVSS:3.1/AV:N/AC:L/PR:N/UI:N/S:U/C:H/I:H/A:H"], []],
+                                                      ["I", "4", True, ["n"] * 6]]
+    from . import c20
+    others = [p for d, p in sorted(c20.interpreters().items()) if d.startswith("2.7") or ctx.tier != "quick"]
+    for py in [sys.executable] + others:
+        g = probes.run_probe(py, {"globals": True, "ops": g_ops})
+        ctx.count(len(g_ops))
+        for k, b, a in g.get("globals_changed") or []:
+            ctx.violation("global-state-modified-by-import-or-use:%s" % k, "process-global state differs between 'before importing the package' and 'after using it'",
+                          k, str(b)[:200], str(a)[:200], replay={"kind": "globals-fresh", "python": py, "ops": g_ops})
     # (d) hash seeds (fresh processes), incl. text extraction whose result is a set
     from . import c13
     ops2 = ops + [["X", c13.make_text(rng)[0]] for _ in range(ctx.n(40, 300))]
@@ -315,6 +340,13 @@ def replay(data):
             if o is not None:
                 o.scores(), o.severities(), o.clean_vector(), o.rh_vector(), o.as_json(minimal=True)
         return not (out.getvalue() or caught), "CVSS%s(%r): captured output %r, warnings %r" % (r["ver"], r["s"], out.getvalue()[:200], [str(w.message) for w in caught])
+    if r["kind"] == "cold":
+        from .. import conc
+        return conc.replay_cold(r)
+    if r["kind"] == "globals-fresh":
+        g = probes.run_probe(r.get("python") or sys.executable, {"globals": True, "ops": r["ops"]})
+        ch = g.get("globals_changed") or []
+        return not ch, "global state before importing the package vs after using it: %s" % (ch or "unchanged")
     if r["kind"] == "globals":
         s0 = snapshot()
         hr = __import__("random").Random(1)
